@@ -122,11 +122,16 @@ def compare(res, case, algo, policy, impl, real, model, model_all=None):
             ok = False
     elif model_all is not None:
         ka = set(solution_key(s) for s in model_all["sols"])
-        if len(ki) > 1 or (not ki) != (not ka) or not set(ki) <= ka or (ki and impl["cost"] != model_all["cost"]):
+        # `any` is a member of `all` (and has its cost) only inside the coherent region (C05_code_any_mem_uspfs);
+        # outside it only cardinality / emptiness are compared (as in c01_code / c02_code)
+        from .. import gen
+        coh = gen.coherent(solvers.full_costs(case), plain=False)
+        if len(ki) > 1 or (not ki) != (not ka) \
+                or (coh and (not set(ki) <= ka or (ki and impl["cost"] != model_all["cost"]))):
             res.tie_broken(f"c03_uspfscode {what}: 'any' result is not one member of the model's 'all' result", info,
                            {"cost": model_all["cost"], "n": len(ka)}, {"cost": impl["cost"], "n": len(ki)})
             ok = False
-        if len(km) > 1 or (not km) != (not ka) or not set(km) <= ka:
+        if len(km) > 1 or (not km) != (not ka) or (coh and not set(km) <= ka):
             res.tie_broken(f"c03_uspfscode {what}: the model's 'any' result is not one member of its 'all' result", info)
             ok = False
     return ok
@@ -182,4 +187,10 @@ def run_code(ctx, res, quick=150, thorough=1500):
         return
     n = ctx.budget(quick, thorough)
     cases = [solvers.unordered_case(ctx, ctx.rng, 5, 4, 4) for _ in range(n)]
+    # incoherent cost vectors too: `C03_code_refines` and the table theorems hold for EVERY cost vector
+    from .. import gen
+    for _ in range(n // 3):
+        c = solvers.unordered_case(ctx, ctx.rng, 5, 4, 4)
+        c["costs"] = gen.rand_costs(ctx.rng, plain=False, coherent_only=False)
+        cases.append(c)
     _compare_cases(ctx, res, cases)
